@@ -144,6 +144,7 @@ Proof.
   - destruct (ghost_handler st t h del) as [st1 ev1] eqn:G. inversion H; subst; clear H.
     apply ghost_handler_ok in G. intro h0. destruct (G h0) as [A B]. split; [exact A|exact B].
   - inversion H; subst; clear H. gsame.
+  - inversion H; subst; clear H. gsame.
 Qed.
 
 Lemma wh_add_ghost : forall st h st1 wi, wh_add st h = Some (st1, wi) -> gnew st1 = gnew st /\ gcol st1 = gcol st.
@@ -186,7 +187,7 @@ Proof.
   induction fuel as [|f IH]; intros s acc k ev s1 acc1 k1 ev1 H e He; cbn [norm] in H.
   - inversion H; subst; auto.
   - destruct k as [|i r]; [inversion H; subst; auto|].
-    destruct i as [c| |[|bm bms]|bm [|a ls]| |[|b bs]|[|b bs]| | | | | | |];
+    destruct i as [c| |[|bm bms]|bm [|a ls]| |[|b bs]|[|b bs]| | | | | | | |];
       try (inversion H; subst; auto; fail); try (eapply IH; eauto; fail).
     + destruct (slab_get s b); [inversion H; subst; auto|eapply IH; eauto].
     + destruct (wh_del s b) as [[h s']|]; [inversion H; subst; apply in_or_app; auto|eapply IH; eauto].
